@@ -5,7 +5,14 @@ open Util Writer
 
 def init : Unit := ()
 
-def parseTriple (s : String) : Option Chunk :=
+/-! ### `trace` (timing-driven scenarios): outcome clauses on whole-run chunk lists -/
+
+structure Tri where
+  id : Nat
+  len : Nat
+  n : Nat
+
+def parseTriple (s : String) : Option Tri :=
   match s.splitOn ":" with
   | [a, b, c] => do
     let id ← a.toNat?
@@ -26,7 +33,7 @@ def parseOutcome (s : String) : Option (Nat × String) :=
     prefix bound, each request at most once, success ⇒ whole frame present, cancelled-before-start ⇒
     no bytes, torn frame ⇒ connection closed. (That only the last piece may be torn is NOT checked:
     the unchanged code violates it, known finding KF-C07-1.) -/
-def monitor (closed : Bool) (chunks : List Chunk) (outs : List (Nat × String)) : String :=
+def monitor (closed : Bool) (chunks : List Tri) (outs : List (Nat × String)) : String :=
   if !(chunks.all fun c => decide (c.n ≤ c.len ∧ 0 < c.n)) then "reject:bound"
   else if !(decide (chunks.map (·.id)).Nodup) then "reject:frame-twice"
   else if !(outs.all fun (w, o) => o != "ok" || chunks.any fun c => c.id == w && c.n == c.len) then "reject:success-without-whole-frame"
@@ -37,6 +44,205 @@ def monitor (closed : Bool) (chunks : List Chunk) (outs : List (Nat × String)) 
 def showAttr (rs : List (Nat × Bool)) : String :=
   " ".intercalate (rs.map fun (n, ok) => toString n ++ ":" ++ (if ok then "1" else "0"))
 
+/-! ### `trace2` (scheduling tier): the exact byte stream as pieces, with the return / close events in order -/
+
+inductive Ev where
+  | piece (id len off n : Nat)   -- `n` bytes of the frame (length `len`) of request `id`, from its offset `off`
+  | endw (id : Nat) (ok : Bool)  -- the transport Write of that frame returned
+  | ret (id : Nat) (o : String)  -- the request returned to its caller: ok | cancel (never started writing) | err | late | crash
+  | sockClosed                   -- the driver closed the socket
+  | idle                         -- check point: socket open and no goroutine is inside closeWithError
+
+def nums (s : String) : Option (List Nat) := (s.splitOn ":").mapM String.toNat?
+
+def parseEv (s : String) : Option Ev :=
+  if s == "x" then some .sockClosed
+  else if s == "i" then some .idle
+  else
+    let body := (s.drop 1).toString
+    match s.front with
+    | 'p' => match nums body with
+      | some [a, b, c, d] => some (.piece a b c d)
+      | _ => none
+    | 'e' => match body.splitOn ":" with
+      | [a, b] => (a.toNat?).map fun id => .endw id (b == "ok")
+      | _ => none
+    | 'r' => match body.splitOn ":" with
+      | [a, b] => (a.toNat?).map fun id => .ret id b
+      | _ => none
+    | _ => none
+
+structure MSt where
+  cs : List Chunk := []       -- `Writer.glue` of the pieces so far (newest first)
+  ended : List Nat := []
+  returned : List Nat := []
+  xseen : Bool := false
+  verdict : Option String := none
+
+def MSt.reject (m : MSt) (why : String) : MSt :=
+  match m.verdict with
+  | none => { m with verdict := some ("reject:" ++ why) }
+  | some _ => m
+
+def lookupLen (tab : List (Nat × Nat)) (w : Nat) : Nat :=
+  match tab.find? (·.1 == w) with
+  | some (_, l) => l
+  | none => 0
+
+/-- the byte-stream part of the monitor is `Writer.scanFrom` (one `addPiece`, then `framed`), whose soundness
+    w.r.t. the machine is `C07_monitor_accepts_reachable` / `C07_monitor_reject_means_unframed_prefix`; the
+    other clauses are `C07_nothing_after_close` (write-after-close), `C07_no_bytes_after_return`,
+    `C07_success_means_whole`, `C07_cancel_before_start_no_bytes`, `C07_quiescent_open_means_whole` (torn-but-open). -/
+def mstep (lens : Nat → Nat) (m : MSt) : Ev → MSt
+  | .piece id len off n =>
+    if m.xseen then m.reject "write-after-close"
+    else if m.returned.contains id then m.reject "bytes-after-return"
+    else if id == 0 then m.reject "unframed-write"
+    else if len != lens id then m.reject "bound"
+    else
+      match scanFrom lens m.cs [⟨id, off, n⟩] with
+      | some cs' => { m with cs := cs', ended := m.ended.filter (· != id) }  -- a Write of `id` is in progress
+      | none =>
+        let continues := match m.cs with
+          | c :: _ => c.id == id && c.start + c.n == off
+          | [] => false
+        if !continues && (off != 0 || (m.cs.any fun c => c.id == id)) then m.reject "interleaved" else m.reject "bound"
+  | .endw id _ => { m with ended := id :: m.ended }
+  | .ret id o =>
+    let m := { m with returned := id :: m.returned }
+    if o == "crash" then m.reject "crash"
+    else if o == "ok" && !(m.cs.any fun c => c.id == id && c.n == lens id) then m.reject "success-without-whole-frame"
+    else if o == "cancel" && (m.cs.any fun c => c.id == id) then m.reject "cancelled-left-bytes"
+    else m
+  | .sockClosed => { m with xseen := true }
+  | .idle =>
+    if m.cs.any fun c => decide (c.n < lens c.id) && m.ended.contains c.id then m.reject "torn-but-open" else m
+
+/-- the independent decoder's view (complete frames / trailing bytes of the raw stream) must agree with the
+    pieces whenever no torn frame is followed by anything (otherwise the decoder's view is garbage by
+    definition: known finding KF-C07-1) -/
+def decoderAgrees (lens : Nat → Nat) (m : MSt) (bytes frames rest : Nat) : Bool :=
+  let total := (m.cs.map (·.n)).foldl (· + ·) 0
+  total == bytes &&
+  (!(onlyLastTorn lens m.cs) ||
+    match m.cs with
+    | [] => frames == 0 && rest == 0
+    | c :: cs => if c.n == lens c.id then frames == cs.length + 1 && rest == 0 else frames == cs.length && rest == c.n)
+
+def lensOfEvs (evs : List Ev) : List (Nat × Nat) :=
+  evs.filterMap fun
+    | .piece id len _ _ => some (id, len)
+    | _ => none
+
+def kv (key s : String) : Option Nat :=
+  match s.splitOn "=" with
+  | [k, v] => if k == key then v.toNat? else none
+  | _ => none
+
+def monitor2 (bytes frames rest : Nat) (evs : List Ev) : String :=
+  let lens := lookupLen (lensOfEvs evs)
+  let m := evs.foldl (mstep lens) {}
+  match m.verdict with
+  | some v => v
+  | none => if decoderAgrees lens m bytes frames rest then "accept" else "reject:decoder-disagrees"
+
+/-! ### `sched`: replay of the observed schedule on the machine of `Model/Writer.lean` -/
+
+structure SSt where
+  s : St := Writer.init
+  stuck : Option String := none
+
+def acts (cfg : Cfg) (ss : SSt) (tok : String) (as : List Act) : SSt :=
+  match ss.stuck with
+  | some _ => ss
+  | none =>
+    match run cfg ss.s as with
+    | some s' => { ss with s := s' }
+    | none => { ss with stuck := some tok }
+
+/-- the actions one token stands for, given the current control state of the request it names -/
+def tokActs (s : St) (tok : String) : Option (List Act) :=
+  let rest1 := (tok.drop 1).toString
+  let rest2 := (tok.drop 2).toString
+  if tok == "t" then some [.tick]
+  else if tok == "+x" then some []
+  else if tok.startsWith "sc" then rest2.toNat?.map fun w => [.submit w, .cancel w]
+  else if tok.startsWith "+q" then rest2.toNat?.map fun w => [.enqueue w]
+  else if tok.startsWith "+k" then rest2.toNat?.bind fun w =>
+    match s.pc w with
+    | .wrote _ false => if s.closing then none else some [.ret w, .close w]
+    | _ => none
+  else if tok.startsWith "+a" then
+    match nums rest2 with
+    | some [w, _] => some [.enter w]
+    | _ => none
+  else if tok.startsWith "+r" then
+    match rest2.splitOn ":" with
+    | [a, o] => a.toNat?.bind fun w =>
+      let pc := s.pc w
+      if o == "shut" then some []
+      else if o == "ok" then
+        match pc with
+        | .wrote _ true => some [.ret w]
+        | _ => none
+      else if o == "cancel" then
+        match pc with
+        | .waiting => some [.cancel w, .ret w]
+        | .cancelled => some [.ret w]
+        | _ => none
+      else
+        match pc with
+        | .idle => some []
+        | .wrote _ true => some [.ret w]
+        | .wrote _ false => if s.closing then some [.ret w, .close w] else some [.ret w, .close w, .closeFinish w]
+        | .closer _ => some [.closeFinish w]
+        | .cancelled => some [.ret w]
+        | .waiting => if s.closed then some [.quit w, .ret w, .close w] else some [.cancel w, .ret w]
+        | .queued => some [.quit w, .ret w, .close w]
+        | _ => none
+    | _ => none
+  else if tok.startsWith "s" || tok.startsWith "h" then rest1.toNat?.map fun w => [.submit w]
+  else if tok.startsWith "x" then some [.shutdown]
+  else if tok.startsWith "c" then rest1.toNat?.map fun _ => []
+  else if tok.startsWith "p" then
+    match nums rest1 with
+    | some [w, k] => some [.piece w k]
+    | _ => none
+  else if tok.startsWith "e" then
+    match rest1.splitOn ":" with
+    | [a, k] => a.toNat?.map fun w => [.endWrite w (k == "ok")]
+    | _ => none
+  else none
+
+def schedStep (cfg : Cfg) (ss : SSt) (tok : String) : SSt :=
+  match ss.stuck with
+  | some _ => ss
+  | none =>
+    match tokActs ss.s tok with
+    | some as => acts cfg ss tok as
+    | none => { ss with stuck := some tok }
+
+def showWire (w : List Piece) : String :=
+  if w.isEmpty then "-" else ",".intercalate (w.map fun p => s!"{p.id}:{p.off}:{p.n}")
+
+def lensOf (toks : List String) : List (Nat × Nat) :=
+  toks.filterMap fun t =>
+    if t.startsWith "+a" then
+      match nums (t.drop 2).toString with
+      | some [w, l] => some (w, l)
+      | _ => none
+    else none
+
+def sched (coal wt : Bool) (toks : List String) : String :=
+  let tab := lensOf toks
+  let cfg : Cfg := { lens := lookupLen tab, coalesce := coal }
+  let ss := toks.foldl (schedStep cfg) {}
+  match ss.stuck with
+  | some t => "stuck@" ++ t
+  | none =>
+    "ok closed=" ++ (if ss.s.closed then "1" else "0") ++ " armed=" ++ (if wt then "1" else "0") ++
+      " wire=" ++ showWire ss.s.wire
+
 def step (_ : Unit) (ws : List String) : Unit × String :=
   ((), match ws with
   | "attr" :: lim :: ls => match lim.toNat?, ls.mapM String.toNat? with
@@ -46,9 +252,14 @@ def step (_ : Unit) (ws : List String) : Unit × String :=
       match parseList parseTriple ch, parseList parseOutcome ou with
       | some chunks, some outs => monitor (cl == "closed=1") chunks outs
       | _, _ => "bad-op"
+  | "trace2" :: b :: f :: r :: evs :: _ =>
+      match kv "bytes" b, kv "frames" f, kv "rest" r, parseList parseEv evs with
+      | some b, some f, some r, some evs => monitor2 b f r evs
+      | _, _, _, _ => "bad-op"
+  | "sched" :: _ :: w :: t :: _ :: "|" :: toks => sched (w == "w=c") (t == "t=1") toks
   | ["kf-d13"] =>
-      match run (fun _ => 10) Writer.init C07.cexScheduleD with
-      | some s => if wholeFrames s.wire then "clean" else "torn-then-complete"
+      match run { lens := fun _ => 10, coalesce := false } Writer.init C07.cexScheduleD with
+      | some s => if onlyLastTorn (fun _ => 10) (glue s.wire) then "clean" else "torn-then-complete"
       | none => "stuck"
   | _ => "bad-op")
 
